@@ -1,6 +1,6 @@
 (** Executable comparison and specification functions for the client/manager state machine,
     evaluated on traces observed on the real code (C01-C04). *)
-From Xds Require Import Model.Base Model.Fqdn Model.Proto Model.Decode Model.DecodeCheck Model.Sys.
+From Xds Require Import Model.Base Model.Fqdn Model.Proto Model.Decode Model.DecodeCheck Model.Pick Model.Route Model.Mw Model.Sys.
 Open Scope string_scope.
 
 (** what the harness reads back after every operation *)
@@ -38,6 +38,7 @@ Definition cval_eqb := eqb_of cval_eq_dec.
 Definition lres_eqb (a b : lookup_result) : bool :=
   match a, b with
   | LHit x, LHit y => cval_eqb x y
+  | LResolved x, LResolved y => opt_eqb (list_eqb (fun a b => String.eqb (fst a) (fst b) && N.eqb (snd a) (snd b))) x y
   | LMiss, LMiss | LNil, LNil | LBoth, LBoth | LPanic, LPanic | LOther, LOther | LHang, LHang => true
   | _, _ => false
   end.
@@ -150,6 +151,10 @@ Definition kv_step (c : scfg) (o : oracle) (t : rtype) (n : string) (v : keyview
             end
           else v
       end
+  | OResolve d =>
+      (* the resolver looks the cluster up; which endpoint set it then looks up depends on that cluster: the
+         per-key view only records the cluster lookup (endpoint keys in such histories are checked through agreement) *)
+      if rtype_eqb t TCl then match kv_val v with Some _ => if String.eqb d n then v else kv_watch v d | None => kv_watch v d end else v
   | OLookups t' ns =>
       if rtype_eqb t' t
       then fold_left (fun a n' => match kv_val a with
@@ -340,8 +345,24 @@ Definition startup_nonces (k : sys_case) : list string :=
   flat_map (fun x => match x with OResp _ nc _ => [nc] | _ => [] end) (sk_startup k).
 Definition spec_c04 (k : sys_case) : bool := negb (sk_fatal k) && c04_ok (start_snap k) 0 (startup_nonces k) true (sk_trace k).
 
-(** result: the agreement components and the four specs *)
-Definition sys_check (k : sys_case) : agreement * (bool * bool * bool * bool) :=
+(** ---- C10: resolution returns exactly the endpoints cached for the cluster ---- *)
+Fixpoint c10_ok (prev : snap) (tr : list (op * step_obs)) : bool :=
+  match tr with
+  | [] => true
+  | (x, ob) :: r =>
+      match x with
+      | OResolve d =>
+          let cl := match aget d (snap_cache prev TCl) with Some (VCl c) => GOk c | _ => GErr end in
+          let eds := fun n => match aget n (snap_cache prev TEp) with Some (VEp e) => GOk e | _ => GErr end in
+          opt_eqb lres_eqb (so_lookup ob) (Some (LResolved (resolve cl eds))) &&
+          match so_lookup ob with Some (LResolved (Some [])) => false | _ => true end
+      | _ => true
+      end && c10_ok (so_snap ob) r
+  end.
+Definition spec_c10 (k : sys_case) : bool := negb (sk_fatal k) && c10_ok (start_snap k) (sk_trace k).
+
+(** result: the agreement components and the specs *)
+Definition sys_check (k : sys_case) : agreement * (bool * bool * bool * bool * bool) :=
   (if sk_fatal k then {| ag_cache := false; ag_lookup := false; ag_reqs := false; ag_watched := false; ag_acks := false; ag_table := false; ag_closed := false |}
    else
      let '(s0, outs) := run (sk_cfg k) (sk_oracle k) init_state (sk_startup k) in
@@ -353,4 +374,4 @@ Definition sys_check (k : sys_case) : agreement * (bool * bool * bool * bool) :=
                              ag_table := table_agrees s0 (so_snap ob); ag_closed := Bool.eqb (s_closed s0) (sn_closed (so_snap ob)) |}
              end)
             (agree_trace (sk_cfg k) (sk_oracle k) s0 (sk_trace k)),
-   (spec_c01 k, spec_c02 k, spec_c03 k, spec_c04 k)).
+   (spec_c01 k, spec_c02 k, spec_c03 k, spec_c04 k, spec_c10 k)).
